@@ -133,6 +133,10 @@ def oracle(case, obs):
         fails.append({"oracle": "no_panic", "type": ty, "detail": "decoder panicked: %s" % msg[:160]})
     elif r == "abort":
         fails.append({"oracle": "no_abort", "type": ty, "detail": "process aborted while decoding (allocation failure / overflow)"})
+    cp = next((o for o in obs if o.startswith("!caught-panic")), None)
+    if cp and r != "panic":
+        fails.append({"oracle": "no_panic", "type": ty, "caught_by_runtime": True, "at": cp.split("at=")[-1], "at_file": cp.split("at=")[-1].rsplit(":", 1)[0],
+                      "detail": "the decoder panicked inside a blocking task (the caller saw an error): %s" % cp[:160]})
     if any("hang" in o for o in obs if not o.startswith("!alloc")):
         fails.append({"oracle": "no_hang", "type": ty, "detail": "an iteration over the input did not end within 200000 rows: %s" % " ".join(obs)[:200]})
     for o in obs:
